@@ -325,7 +325,7 @@ func treeMutations(file string, tree interface{}, uris []string, suffixes []stri
 
 func c14(r *hx.Run) {
 	fx.Quiet()
-	r.Rule = "six valid batch file sets (all four types; creates only; updates only; deactivates only; recover+update; 6 operations) are decoded to JSON trees; every structural mutation at every JSON path of every file (delete, duplicate, swap, null, [], {}, \"\", 0, true, foreign values, every didSuffix reference pointed at every other DID of the batch, every URI retargeted to another file / itself / missing / over-long / empty; thorough: all pairs of mutations on two different files), entries moved between lists, each operation duplicated consistently in every file that references it with the anchor count raised, count skews, every truncation of every compressed file, gzip header/trailer substitutions, uncompressed content, exact size and decompression boundaries per size parameter (also with the excess in a second gzip member), the URI length boundary, an anchor-string grammar, and every subset of failing CAS reads x alternate-source configurations (none / good / bad+good / failing formatter / bad+partial / bad; and ordered pairs of such transactions on one provider, the second compared with a fresh provider) are served to the real OperationProvider: it must return an error or operations satisfying the success invariant (count, distinct suffixes, validated deltas, parseable signed data) and never panic; the listed rejection classes must be errors. Non-trivial: distinct mutated inputs that are rejected plus those accepted with the invariant checked."
+	r.Rule = "six valid batch file sets (all four types; creates only; updates only; deactivates only; recover+update; 6 operations) are decoded to JSON trees; every structural mutation at every JSON path of every file (delete, duplicate, swap, null, [], {}, \"\", 0, true, foreign values, every didSuffix reference pointed at every other DID of the batch, every URI retargeted to another file / itself / missing / over-long / empty; thorough: all pairs of mutations on two different files), entries moved between lists, each operation duplicated consistently in every file that references it with the anchor count raised, count skews, every truncation of every compressed file, gzip header/trailer substitutions, uncompressed content, exact size and decompression boundaries per size parameter (also with the excess in a second gzip member), the URI length boundary, an anchor-string grammar (named cases and the product of 17 count tokens x 5 separators x 9 address tokens), and every subset of failing CAS reads x alternate-source configurations (none / good / bad+good / failing formatter / bad+partial / bad; and ordered pairs of such transactions on one provider, the second compared with a fresh provider) are served to the real OperationProvider: it must return an error or operations satisfying the success invariant (count, distinct suffixes, validated deltas, parseable signed data) and never panic; the listed rejection classes must be errors. Non-trivial: distinct mutated inputs that are rejected plus those accepted with the invariant checked."
 	p := fx.DefaultProtocol()
 	dids := []*fx.DIDOps{fx.NewDIDOps(fx.Ed25519, fx.SHA256, "a"), fx.NewDIDOps(fx.Ed25519, fx.SHA256, "b"), fx.NewDIDOps(fx.P256, fx.SHA256, "c"),
 		fx.NewDIDOps(fx.Ed25519, fx.SHA256, "d"), fx.NewDIDOps(fx.Ed25519, fx.SHA256, "e"), fx.NewDIDOps(fx.Ed25519, fx.SHA256, "f")}
@@ -920,6 +920,28 @@ func c14(r *hx.Run) {
 		r.Nontrivial(caseID)
 		if res.err == nil && a != anchor {
 			r.Outcome("anchor variant accepted (invariant checked)")
+		}
+	}
+	// the same grammar as a product: count token x separator x address token (the listed strings above are kept as named cases)
+	{
+		counts := []string{"", "0", "1", "4", "5", "04", "4 ", " 4", "+4", "-4", "4.0", "4e0", "0x4", "４", "4\n", "18446744073709551620", "4_0"}
+		seps := []string{".", "", "..", ":", " . "}
+		addrs := []string{core, "", core + ".x", core + " ", " " + core, strings.ToUpper(core), core[:len(core)-1], core + core, "\x00" + core}
+		for ci, cn := range counts {
+			for si, sp := range seps {
+				for ai, ad := range addrs {
+					a := cn + sp + ad
+					caseID := fmt.Sprintf("anchor-grammar|%d|%d|%d", ci, si, ai)
+					if !r.Want(caseID) {
+						continue
+					}
+					res := c14Read(r, caseID, p, cas.Clone(), a, nil)
+					r.Nontrivial(caseID)
+					if res.err == nil && a != anchor {
+						r.Outcome("anchor variant accepted (invariant checked)")
+					}
+				}
+			}
 		}
 	}
 	r.Assumptions = append(r.Assumptions,
